@@ -23,7 +23,7 @@ From Pandora Require Model.Cbca Proofs.CbcaP Proofs.IntervalCbcaP.
 From Pandora Require Model.Refine Model.Filters Model.CrossCheck Model.Interp Spec.CrossCheck Spec.Interp Spec.Filters.
 From Pandora Require Import Model.IntervalPipeline.
 From Pandora Require Proofs.IntervalPipelineP Proofs.IntervalRefineP.
-From Pandora Require Gen.RefineConsts Gen.Constants Gen.ValConst.
+From Pandora Require Gen.RefineConsts Gen.Constants Gen.ValConst Model.Mirror Gen.Callbacks.
 Import ListNotations.
 Open Scope Z_scope.
 
@@ -234,6 +234,26 @@ Theorem C09_pipeline_constants :
   /\ CrossCheck.MSK_INVALID = ValConst.PANDORA_MSK_PIXEL_INVALID
   /\ 1 <= Constants.median_block /\ 1 <= Constants.bilateral_block.
 Proof. repeat split; try reflexivity; vm_compute; discriminate. Qed.
+
+(* Per-run obligation on the regenerated call structure of the three run callbacks (Gen/Callbacks.v, by ast from
+   state_machine.py): filter_run filters the left disparity dataset in place from that dataset alone,
+   refinement_run refines it from (left_cv, left disparity), validation_run cross-checks it against the right
+   dataset and, when interpolated_disparity is configured, interpolates it from itself -- what [run_step]
+   composes; under the right_disp_map guard the same calls are made on the right products with the roles swapped. *)
+Theorem C09_callbacks_as_composed :
+  Callbacks.gen_callback Mirror.CbFlt
+  = [ Mirror.mkSeg [ Mirror.mkCall Mirror.FFilter [Mirror.Ldisp] [] ]
+                   [ Mirror.mkCall Mirror.FFilter [Mirror.Rdisp] [] ] true ]
+  /\ Callbacks.gen_callback Mirror.CbRef
+  = [ Mirror.mkSeg [ Mirror.mkCall Mirror.FRefine [Mirror.Lcv; Mirror.Ldisp] [] ]
+                   [ Mirror.mkCall Mirror.FRefine [Mirror.Rcv; Mirror.Rdisp] [] ] true ]
+  /\ Callbacks.gen_callback Mirror.CbVal
+  = [ Mirror.mkSeg [ Mirror.mkCall Mirror.FCrossCheck [Mirror.Ldisp; Mirror.Rdisp] [Mirror.Ldisp] ]
+                   [ Mirror.mkCall Mirror.FCrossCheck [Mirror.Rdisp; Mirror.Ldisp] [Mirror.Rdisp];
+                     Mirror.mkCall Mirror.FCfgCond [] [];
+                     Mirror.mkCall Mirror.FInterpolate [Mirror.Ldisp] [];
+                     Mirror.mkCall Mirror.FInterpolate [Mirror.Rdisp] [] ] true ].
+Proof. repeat split; reflexivity. Qed.
 
 Theorem C09_validity_tests_agree : forall m,
   (Spec.CrossCheck.spec_valid m = true <-> Z.land m (Refine.k_invalid KK) = 0)       (* loop_refinement *)
@@ -510,6 +530,7 @@ Print Assumptions C09_final_disp_in_global_interval_partial.
 Print Assumptions C09_arbitrary_steps_refuted.
 Print Assumptions C09_wta_state_in_global_interval.
 Print Assumptions C09_pipeline_constants.
+Print Assumptions C09_callbacks_as_composed.
 Print Assumptions C09_validity_tests_agree.
 Print Assumptions C09_step_preserves_interval.
 Print Assumptions C09_final_disp_in_global_interval.
